@@ -216,8 +216,15 @@ def main(argv=None):
           f"obligations={tot('obligations')} discharged={tot('discharged')} inconclusive={n_inconcl} "
           f"solver={ev['coverage']['solver_time_s']}s wall={wall:.1f}s")
     if os.environ.get("VERIF_VERBOSE"):
+        hist = {}
         for r in results:
-            if r["obligations"] != r["discharged"]:
+            for c in r["cex"]:
+                k = (c["label"], str(r["cfg"].get("res")), r["cfg"].get("tcs"))
+                hist[k] = hist.get(k, 0) + 1
+        for k, v in sorted(hist.items())[:80]:
+            print("   cex-label:", k, v)
+        for r in results:
+            if r["obligations"] != r["discharged"] and False:
                 print(f"   undischarged: {r['obligations'] - r['discharged']} cex={len(r['cex'])} known={list(r['known_hits'])} inconcl={r['n_inconclusive']} {r['cfg']}")
         for r in sorted(results, key=lambda r: -r["wall_s"])[:6]:
             print(f"   slow: {r['wall_s']:.1f}s paths={r['paths']} queries={r['queries']} {r['cfg']}")
